@@ -330,3 +330,49 @@ def write_replay(prop, payload):
     with open(p, "w") as fh:
         json.dump(payload, fh, indent=1)
     return p
+
+
+# ---------------------------------------------------------------------------------------------
+# native exhaustive sweeps (thorough tier; supporting evidence)
+
+def run_sweeps(binpath, ops, workers=16):
+    """run sweep ops (xwi/xpi/xwf/xpf), one process per op, in parallel; returns list of (op, result line)"""
+    from concurrent.futures import ThreadPoolExecutor
+
+    def one(op):
+        p = subprocess.run([binpath], input=(op + "\n").encode(), stdout=subprocess.PIPE, stderr=subprocess.PIPE)
+        out = p.stdout.decode().strip().split("\n")[0] if p.stdout else "fault rc=%d" % p.returncode
+        return (op, out)
+    with ThreadPoolExecutor(max_workers=workers) as ex:
+        return list(ex.map(one, ops))
+
+
+def sweep_ops(kind, ty, lo, hi, shards):
+    """split [lo, hi) into `shards` contiguous ranges"""
+    n = hi - lo
+    step = (n + shards - 1) // shards
+    ops = []
+    s = lo
+    while s < hi:
+        c = min(step, hi - s)
+        ops.append("%s %s %d %d" % (kind, ty, s, c))
+        s += c
+    return ops
+
+
+def sweep_violations(results, fs, profile, single_op):
+    """turn sweep results into violation dicts; `single_op(op, first)` builds the replayable single-value op"""
+    viol = []
+    checked = 0
+    for op, res in results:
+        t = res.split(" ")
+        if t[0] != "ok":
+            viol.append({"kind": "input", "featureset": fs, "profile": profile, "stream": "sweep", "op": op,
+                         "implementation": res, "specification": "sweep completes", "model": "-"})
+            continue
+        checked += int(t[1])
+        if int(t[2]) != 0:
+            viol.append({"kind": "input", "featureset": fs, "profile": profile, "stream": "sweep",
+                         "op": single_op(op, t[3]), "implementation": "%s mismatches in %s, first at %s" % (t[2], op, t[3]),
+                         "specification": "agrees with the standard library on the whole range", "model": "-"})
+    return viol, checked
